@@ -294,13 +294,48 @@ func (ifs *IfStatement) WriteTo(cw *CodeWriter) {
 	ifs.Condition.WriteTo(cw)
 	cw.WriteRune(')')
 	cw.WriteSpace()
-	ifs.ThenBranch.WriteTo(cw)
+	if ifs.ElseBranch != nil && endsWithOpenIf(ifs.ThenBranch) {
+		// `if (a) if (b) c; else d`: the else would attach to the inner if
+		cw.WriteRune('{')
+		cw.WriteNewline()
+		cw.IncreaseIndent()
+		cw.WriteIndent()
+		ifs.ThenBranch.WriteTo(cw)
+		cw.DecreaseIndent()
+		cw.WriteNewline()
+		cw.WriteIndent()
+		cw.WriteRune('}')
+	} else {
+		ifs.ThenBranch.WriteTo(cw)
+	}
 	if ifs.ElseBranch != nil {
 		// `if (a) b else c` is not valid: a brace-less branch keeps its semicolon
 		cw.WriteOmittedSemi()
 		cw.WriteString(" else ")
 		ifs.ElseBranch.WriteTo(cw)
 	}
+}
+
+// endsWithOpenIf reports whether the text of a brace-less statement ends with
+// an `if` that has no `else`, so that an `else` written after it would attach
+// to that `if`. The parser never produces such a then-branch; trees assembled
+// by hand can contain one.
+func endsWithOpenIf(stmt Statement) bool {
+	switch s := stmt.(type) {
+	case *IfStatement:
+		if s == nil {
+			return false
+		}
+		if s.ElseBranch == nil {
+			return true
+		}
+		return endsWithOpenIf(s.ElseBranch)
+	case *WhileStatement:
+		return s != nil && endsWithOpenIf(s.Body)
+	case *ForStatement:
+		return s != nil && endsWithOpenIf(s.Body)
+	}
+	return false
 }
 
 type WhileStatement struct {
